@@ -13,3 +13,4 @@ TECHNIQUE = "contract-based deductive verification with ghost protocol state (VC
 UNITS = [VIO.unit_reader_rows(), VIO.unit_writer_init(), CK.unit_check_resets(), VIO.unit_close(), VIO.unit_module_rows_validate(), CK.unit_is_unique_check_row(), H.unit_history_sweep()]
 from contracts import structure as ST
 UNITS += [ST.unit_no_hidden_state()]
+UNITS += [APP.unit_app_validate().also("C08"), APP.unit_set_cid_from_path()]
